@@ -33,12 +33,17 @@ class Script:
 
     def add(self, kind, op, *args):
         self.lines.append(" ".join([op] + [str(a) for a in args]))
-        self.reqs.append((op,) + tuple(str(a) for a in args))
+        # "^%k": the String of line k's spelling as owned by ANOTHER Lexicon; for the oracle and the model it is the same operand
+        self.reqs.append((op,) + tuple(str(a).lstrip("^") for a in args))
         self.kind.append(kind)
         return "%%%d" % (len(self.lines) - 1)
 
     def text(self):
         return "\n".join(self.lines) + "\n"
+
+    def model_text(self):
+        import re
+        return re.sub(r"\^+(?=[%$@])", "", self.text())
 
 
 # ---------------------------------------------------------------------------
@@ -329,7 +334,7 @@ def run_script(res, script, known, pid, scope_keys=None, variant="plain", label=
                       {"failing_request": e["request"], "answer": e["answer"],
                        "minimal_script": [script.lines[k] for k in need], "original_line_numbers": need,
                        "rerun": "printf '<script>' | build/<hash>/plain/lex_driver  (operands %k refer to original line numbers)"})
-    pm = run([gen, "lex"], input=text, timeout=3600)
+    pm = run([gen, "lex"], input=script.model_text(), timeout=3600)
     ma = parse_answers(pm.stdout)
     ndiff = 0
     bad_lines = {e["line"] for e in errs}
@@ -350,3 +355,22 @@ def run_script(res, script, known, pid, scope_keys=None, variant="plain", label=
                            "minimal_script": [script.lines[k] for k in need]}, no_input=True)
     return {"n": len(script.lines), "oracle_errors": len(mine), "diffs": ndiff, "answers": ia,
             "classes": len(set(x for x in ia if x.startswith("#")))}
+
+
+def run_histories(res, make, known, pid, scope_keys, nchunks):
+    """thorough tier: several independent seeded histories (a fresh Lexicon each) instead of one long one — the extracted
+    model compares nodes structurally and its cost grows with the cube of the history length; they run side by side"""
+    import concurrent.futures as cf
+    scripts = [make(k) for k in range(nchunks)]
+    with cf.ThreadPoolExecutor(max_workers=NCPU) as ex:
+        sts = list(ex.map(lambda sc: run_script(res, sc, known, pid, scope_keys), scripts))
+    # the same key reported by several histories counts once
+    seen, kept = set(), []
+    for v in res.violations:
+        if v["key"] in seen:
+            continue
+        seen.add(v["key"]); kept.append(v)
+    res.violations[:] = kept
+    tot = {"n": sum(s["n"] for s in sts), "oracle_errors": sum(s["oracle_errors"] for s in sts), "diffs": sum(s["diffs"] for s in sts),
+           "classes": sum(s.get("classes", 0) for s in sts), "histories": nchunks}
+    return scripts, tot
